@@ -593,6 +593,9 @@ def run(cfg):
     five_slot_rule(cfg, R, lib, B, 'A5')
     feature_rules(cfg, R, lib)
     subset_rules(cfg, R, B, X)
+    from . import rules_C04c
+    rules_C04c.basic_rule(R, cfg, lib, 'F')
+    rules_C04c.shipped_boundary_rule(R, cfg, lib, 'G')
     return R
 
 
